@@ -24,8 +24,31 @@ def run(ctx, rep):
     from props import c18
     c18.connect(ctx, rep, flag_only=True)
     constructors(ctx, rep)
+    ver_layout(ctx, rep)
     rep.floor("R9.2", 4 * len(net.impls_present(ctx)))
     rep.floor("R9.3", 2 * len(net.impls_present(ctx)))
+
+
+def ver_layout(ctx, rep):
+    """R9.6 "carrying that value": the number the gate compares is the one the host reported - IS_VER's fields sit where the
+    specification puts them on both sides (C02's layout comparison, for the version packet), so `insimver` is the one InSimVer
+    byte and nothing else (a wider read would fold the spare byte into it)"""
+    from props.c02 import compare_seq
+    from props.packets import norm, packet_variants, show
+    ent, variants = packet_variants(ctx)
+    vs = [v for v in (variants or []) if ctx.spec.bind["packet"].get(v["variant"]) == "VER"]
+    if len(vs) != 1 or vs[0]["lay"] is None:
+        rep.fail("R9.6", "Ver:found", "the IS_VER packet variant / its payload struct was not found")
+        return
+    v = vs[0]
+    sseg = ctx.spec.segs(ctx.spec.packets["VER"]["tokens"])
+    lay = v["lay"]
+    loc = ctx.loc(lay["ent"]) if lay.get("ent") else v["loc"]
+    for side in ("read", "write"):
+        code = norm(lay[side], side, ctx.wire)
+        diff = compare_seq(code, sseg, v["variant"], side == "read")
+        rep.check("R9.6", "Ver:%s" % side, diff is None, "IS_VER %s-side layout differs from the specification: %s | code: %s | spec: %s" % (side, diff, show(code), show(sseg)),
+                  loc, sample={"packet": "VER", "side": side, "code": show(code)})
 
 
 GATE = "insim::packet::Packet::maybe_verify_version"
